@@ -46,16 +46,20 @@ def run(ck):
     ex = build(ck)
     P, A = ex["h_c08"], ex["h_c08a"]
     if ck.tier == "quick":
-        ck.explore(P, ["--depth=3", "--ohash=2"], "d3-b1-hash2", budget=1, deadline_s=120, jobs=JOBS)
-        ck.explore(P, ["--depth=2", "--ohash=3"], "d2-b1-hash4", budget=1, deadline_s=25, jobs=JOBS)
-        ck.explore(P, ["--depth=2", "--ohash=0"], "d2-b1-hash-default", budget=1, deadline_s=25, jobs=JOBS)
-        ck.explore(A, ["--depth=2", "--ohash=2"], "d2-b1-hash2-asan", budget=1, deadline_s=70, jobs=JOBS)
+        ck.explore(P, ["--depth=3", "--ohash=2"], "d3-b1-hash2", budget=1, deadline_s=100, jobs=JOBS)
+        ck.explore(P, ["--depth=2", "--ohash=2"], "d2-b2-hash2", budget=2, min_budget=2, deadline_s=80, jobs=JOBS)
+        ck.explore(P, ["--depth=2", "--ohash=3"], "d2-b1-hash4", budget=1, deadline_s=20, jobs=JOBS)
+        ck.explore(P, ["--depth=2", "--ohash=0"], "d2-b1-hash-default", budget=1, deadline_s=20, jobs=JOBS)
+        ck.explore(A, ["--depth=2", "--ohash=2"], "d2-b1-hash2-asan", budget=1, deadline_s=60, jobs=JOBS)
     else:
-        ck.explore(P, ["--depth=4", "--ohash=2"], "d4-b1-hash2", budget=1, deadline_s=1100, jobs=JOBS)
-        ck.explore(P, ["--depth=2", "--ohash=2"], "d2-b2-hash2", budget=2, min_budget=2, deadline_s=300, jobs=JOBS)
+        # deadlines are sized for a heavily loaded machine (sum < 40 min); measured on 16 shared cores: ~15 min
+        ck.explore(P, ["--depth=4", "--ohash=2"], "d4-b1-hash2", budget=1, deadline_s=700, jobs=JOBS)
+        ck.explore(P, ["--depth=2", "--ohash=2"], "d2-b2-hash2", budget=2, min_budget=2, deadline_s=200, jobs=JOBS)
+        ck.explore(P, ["--depth=2", "--ohash=0"], "d2-b2-hash-default", budget=2, min_budget=2, deadline_s=200, jobs=JOBS)
+        ck.explore(P, ["--depth=3", "--ohash=2", "--init=2"], "d3-b2-hash2-world2", budget=2, min_budget=2, deadline_s=500, jobs=JOBS)
         ck.explore(P, ["--depth=3", "--ohash=3"], "d3-b1-hash4", budget=1, deadline_s=200, jobs=JOBS)
         ck.explore(P, ["--depth=3", "--ohash=0"], "d3-b1-hash-default", budget=1, deadline_s=200, jobs=JOBS)
-        ck.explore(A, ["--depth=3", "--ohash=2"], "d3-b1-hash2-asan", budget=1, deadline_s=500, jobs=JOBS)
+        ck.explore(A, ["--depth=3", "--ohash=2"], "d3-b1-hash2-asan", budget=1, deadline_s=400, jobs=JOBS)
     ck.finish(vlib.mc_coverage(ck.parts, RULE), assumptions=ASSUME)
 
 
